@@ -14,6 +14,9 @@
    re-sealed (payout, commitment, nonce) so that the code behind the first
    check is reached.
 
+   A second kind of case needs a HISTORY: the family "reveal" (COMMIT, THEN REVEAL, below) first lets a valid block pay to
+   the address of odd unlock conditions / policies and then spends that output revealing them.
+
    PREDICTION for every case: ValidateBlock / ValidateOrphan / ValidateHeader /
    ValidateTransaction / ValidateV2Transaction / ValidateTransactionElements
    return (accept or reject); a block that is accepted can be applied and
@@ -190,7 +193,141 @@ DecodedCat == {E("decoded", <<2, "json", "">>, x) : x \in {"{\"siacoinInputs\":[
               {E("decoded", <<1, "json", "">>, x) : x \in {"{\"siacoinInputs\":[{}]}", "{\"siafundInputs\":[{}]}", "{\"signatures\":[{}]}", "{\"fileContractRevisions\":[{}]}", "{\"storageProofs\":[{}]}",
                    "{\"fileContracts\":[{}]}", "{\"minerFees\":[\"0\"]}", "{\"arbitraryData\":[null]}", "{\"signatures\":[{\"coveredFields\":{\"signatures\":[0,0,1]}}]}"}}
 
-Catalogue == SuppEraCat \cup WrapCat \cup ComplementCat \cup LifecycleCat \cup ConfuseCat \cup DecodedCat \cup CurSingles \cup CurPairs \cup ProofCat \cup CoveredCat \cup SigCat \cup ParentCat \cup SuppCat \cup PolicyCat \cup ResCat \cup EraCat \cup SizeCat \cup WinCat \cup ShapeCat
+\* ---- COMMIT, THEN REVEAL: content that a valid block commits to by its hash and that only a LATER block interprets -------------------
+\* The property speaks of arbitrary blocks on arbitrary REACHABLE states.  The families above change a block that stands on a state
+\* whose elements honest templates created; a mutant of the unlock conditions or of the policy of an input changes the address and is
+\* refused before anything interprets it.  But an address is 32 opaque bytes: any block may pay an output (siacoin, siafund) or bind a
+\* v1 contract (UnlockHash) to the hash of ANY unlock conditions / spend policy -- keys of odd lengths, unknown algorithms, zero or
+\* huge SignaturesRequired, huge timelocks, no keys, opaque or unsatisfiable policies.  Nothing looks at the pre-image then.  A block
+\* on the state reached that way reveals the pre-image, passes the address comparison, and the signature / policy interpreter runs
+\* on content no honest wallet produced.  (Fixed-size members -- attestation keys, v2 contract keys -- have no such freedom.)
+\*
+\* Two blocks: block 1 (height 1, an ordinary valid payment) funds the address of every pre-image below with a siacoin output, a
+\* siafund output and (unlock conditions) a v1 contract; block 2 (height Child) spends one of them revealing the pre-image, in one of
+\* the FORMS.  The model transcribes the two interpreters (validateSignatures for v1 inputs and revisions, SpendPolicy.Verify for v2
+\* inputs) over abstract content: a key is (algorithm, length) whose bytes are those of the signer's key as far as they go; a
+\* signature is the signer's, cut or extended to a length (v1), or the signer's / garbage (v2).  For every case it computes the
+\* STAGE that decides it.  The prediction for the property is only that every entry point returns; the stage says that the case
+\* gets PAST the address comparison and where (the harness checks on the real code that it does: a reveal that dies earlier would
+\* make the family vacuous).
+Child == 2
+Huge == 1000000      \* stands for 2^63 in the model's arithmetic, Huge + 1 for 2^64-1
+Num(s, len) == CASE s = "0" -> 0 [] s = "1" -> 1 [] s = "2" -> 2 [] s = "child-1" -> Child - 1 [] s = "child" -> Child [] s = "child+1" -> Child + 1
+                 [] s = "len" -> len [] s = "2^63" -> Huge [] s = "2^64-1" -> Huge + 1
+Pick(seq, i, stride) == seq[(((i - 1) \div stride) % Len(seq)) + 1]      \* component of the i-th element of a product of sequences
+
+Key(a, n) == [alg |-> a, len |-> n]
+GoodKey == Key("ed25519", 32)
+KeyAlgs == <<"ed25519", "entropy", "unknown", "zero">>
+KeyLens == <<0, 1, 31, 32, 33, 64>>
+OddKeys == <<Key("ed25519", 31), Key("ed25519", 0), Key("ed25519", 33), Key("unknown", 0), Key("entropy", 32)>>
+KeyLists == << <<>> >> \o [i \in 1..24 |-> <<Key(Pick(KeyAlgs, i, 6), Pick(KeyLens, i, 1))>>]
+                       \o [i \in 1..5 |-> <<GoodKey, OddKeys[i]>>] \o [i \in 1..5 |-> <<OddKeys[i], GoodKey>>]
+Reqs == <<"0", "1", "2", "2^64-1">>
+Tls == <<"0", "child-1", "child", "child+1", "2^64-1">>
+UCs == [i \in 1..(Len(KeyLists) * 20) |-> [keys |-> Pick(KeyLists, i, 20), req |-> Pick(Reqs, i, 5), tl |-> Pick(Tls, i, 1)]]
+\* ed25519 keys are copied into 32 bytes (cut or zero-filled); signatures into 64
+KeyIsSigner(k) == k.alg = "ed25519" /\ k.len >= 32
+
+\* -- v1: the signatures of the revealing transaction
+Pkis == <<"0", "1", "len", "2^63", "2^64-1">>
+Slens == <<0, 63, 64, 65>>
+Cfs == <<"whole", "partial", "whole+fields", "field-index=len", "sig-index=len", "field-index=2^64-1">>
+Stls == <<"child", "child+1", "2^64-1">>
+Sg(p, l, c, t) == [pki |-> p, slen |-> l, cf |-> c, stl |-> t]
+SigOne == [i \in 1..120 |-> Sg(Pick(Pkis, i, 24), Pick(Slens, i, 6), Pick(Cfs, i, 1), "0")]
+RevealsV1 == << <<>> >> \o [i \in 1..120 |-> <<SigOne[i]>>] \o [i \in 1..3 |-> <<Sg("0", 64, "whole", Stls[i])>>]
+                        \o [i \in 1..4 |-> <<Sg(Pick(<<"0", "1">>, i, 2), 64, "whole", "0"), Sg(Pick(<<"0", "1">>, i, 1), 64, "whole", "0")>>]
+FormsV1 == <<"sci", "sfi", "rev">>
+CfInRange(cf) == cf \in {"whole", "partial", "whole+fields"}
+\* Two verifications are left OPEN (the model does not compute curve arithmetic): the all-zero signature under the all-zero key
+\* (a point of small order), and the signer's signature cut by one byte (the zero fill restores it when its last byte is zero).
+\* `open` is what they yield; the harness accepts the stage of either value.
+OpenCheck(k, s) == k.alg = "ed25519" /\ ((k.len = 0 /\ s.slen = 0) \/ (KeyIsSigner(k) /\ s.slen = 63))
+RECURSIVE SigLoop(_, _, _, _, _, _)
+SigLoop(uc, sigs, i, need, used, open) ==
+    IF i > Len(sigs) THEN (IF need > 0 THEN "missing" ELSE "accept")
+    ELSE LET s == sigs[i]
+             idx == Num(s.pki, Len(uc.keys))
+         IN  IF idx >= Len(uc.keys) THEN "nokey"
+             ELSE IF need = 0 \/ idx \in used THEN "redundant"
+             ELSE IF Num(s.stl, 0) > Child THEN "sig-timelock"
+             ELSE IF ~CfInRange(s.cf) THEN "covered"
+             ELSE LET k == uc.keys[idx + 1]
+                  IN  IF k.alg = "ed25519" THEN (IF (KeyIsSigner(k) /\ s.slen >= 64) \/ (open /\ OpenCheck(k, s)) THEN SigLoop(uc, sigs, i + 1, need - 1, used \cup {idx}, open) ELSE "invalid")
+                      ELSE IF k.alg = "entropy" THEN "entropy"
+                      ELSE SigLoop(uc, sigs, i + 1, need - 1, used \cup {idx}, open)      \* unknown algorithms count as signed
+V1StageO(uc, sigs, open) == IF Num(uc.tl, 0) > Child THEN "input-timelock" ELSE SigLoop(uc, sigs, 1, Num(uc.req, 0), {}, open)
+V1Stage(uc, sigs) == V1StageO(uc, sigs, FALSE)
+
+\* -- v2: policies (the committed one; the revealed one may replace sub-policies of a threshold by their opaque hashes)
+PAbove(v) == [k |-> "above", v |-> v]
+PAfter(v) == [k |-> "after", v |-> v]
+PPk(x) == [k |-> "pk", key |-> x]
+PHash(h) == [k |-> "hash", h |-> h]
+POpaque == [k |-> "opaque"]
+PUc(u) == [k |-> "uc", uc |-> u]
+PTh(n, of) == [k |-> "thresh", n |-> n, of |-> of]
+PMasked(p) == [k |-> "masked", p |-> p]
+Simple == <<PAbove("0"), PAbove("child-1"), PAbove("child"), PAbove("2^64-1"),
+            PAfter("epoch"), PAfter("far"), PAfter("2^63-1"), PAfter("2^63"), PAfter("2^64-1"),
+            PPk("A"), PPk("zero"), PPk("ff"), PHash("P"), PHash("other"), POpaque>>
+StdUC == [keys |-> <<GoodKey>>, req |-> "1", tl |-> "0"]
+Leaves == <<PPk("A"), PAbove("0"), PAbove("2^64-1"), PHash("P"), POpaque, PUc(StdUC), PTh(1, <<PPk("A")>>)>>
+OfLists == << <<>> >> \o [i \in 1..7 |-> <<Leaves[i]>>] \o [i \in 1..49 |-> <<Pick(Leaves, i, 7), Pick(Leaves, i, 1)>>]
+                      \o << <<PPk("A"), PPk("A"), PPk("A")>>, <<PPk("A"), PHash("P"), PAbove("0")>> >>
+Ns == <<0, 1, 2, 255>>
+Threshes == [i \in 1..(Len(OfLists) * 4) |-> PTh(Pick(Ns, i, 1), Pick(OfLists, i, 4))]
+Masks == <<"none", "first", "all">>
+Mask(p, m) == IF p.k # "thresh" \/ m = "none" THEN p
+              ELSE PTh(p.n, [j \in DOMAIN p.of |-> IF (m = "all" \/ j = 1) /\ p.of[j].k # "opaque" THEN PMasked(p.of[j]) ELSE p.of[j]])
+SigSeqs == << <<>>, <<"A">>, <<"bad">>, <<"A", "A">>, <<"A", "bad">>, <<"bad", "A">>, <<"bad", "bad">>, <<"A", "A", "A">> >>
+PreSeqs == << <<>>, <<"P">>, <<"bad">>, <<"P", "P">> >>
+Sats == [i \in 1..32 |-> [s |-> Pick(SigSeqs, i, 4), p |-> Pick(PreSeqs, i, 1)]]
+FormsV2 == <<"sci", "sfi">>
+\* SpendPolicy.Verify: the height is that of the parent block; signatures and pre-images are consumed from the front
+R(e, s, p) == [e |-> e, s |-> s, p |-> p]
+RECURSIVE Ver(_, _, _), UcLoop(_, _, _, _, _), ThLoop(_, _, _, _, _, _)
+Ver(pol, s, p) ==
+    CASE pol.k = "above" -> R(IF Child - 1 >= Num(pol.v, 0) THEN "" ELSE "height", s, p)
+      [] pol.k = "after" -> R(IF pol.v \in {"epoch", "2^63", "2^64-1"} THEN "" ELSE "time", s, p)      \* seconds above 2^63-1 are negative
+      [] pol.k = "pk" -> IF Len(s) > 0 /\ pol.key = "A" /\ Head(s) = "A" THEN R("", Tail(s), p) ELSE R("signature", s, p)
+      [] pol.k = "hash" -> IF Len(p) > 0 /\ pol.h = "P" /\ Head(p) = "P" THEN R("", s, Tail(p)) ELSE R("preimage", s, p)
+      [] pol.k \in {"opaque", "masked"} -> R("opaque", s, p)
+      [] pol.k = "uc" -> IF Child - 1 < Num(pol.uc.tl, 0) THEN R("height", s, p) ELSE UcLoop(pol.uc.keys, 1, Num(pol.uc.req, 0), s, p)
+      [] pol.k = "thresh" -> ThLoop(pol.of, 1, pol.n, 0, s, p)
+UcLoop(keys, i, need, s, p) ==
+    IF i > Len(keys) \/ need = 0 \/ need > (Len(keys) - i) + 1 \/ need > Len(s) THEN R(IF need = 0 THEN "" ELSE "uc-threshold", s, p)
+    ELSE LET k == keys[i]
+         IN  IF k.alg = "entropy" THEN R("entropy", s, p)
+             ELSE IF k.alg = "ed25519" THEN (IF KeyIsSigner(k) /\ Head(s) = "A" THEN UcLoop(keys, i + 1, need - 1, Tail(s), p) ELSE UcLoop(keys, i + 1, need, s, p))
+             ELSE UcLoop(keys, i + 1, need - 1, Tail(s), p)
+ThLoop(of, i, n, sat, s, p) ==
+    IF i > Len(of) THEN R(IF sat = n THEN "" ELSE "threshold", s, p)
+    ELSE LET sp == of[i]
+         IN  IF sp.k = "uc" THEN R("uc-sub-policy", s, p)
+             ELSE IF sp.k \in {"opaque", "masked"} THEN ThLoop(of, i + 1, n, sat, s, p)
+             ELSE IF sat = n THEN R("threshold-exceeded", s, p)
+             ELSE LET r == Ver(sp, s, p) IN IF r.e # "" THEN r ELSE ThLoop(of, i + 1, n, sat + 1, r.s, r.p)
+V2Stage(pol, sat) == LET r == Ver(pol, sat.s, sat.p)
+                     IN  IF r.e # "" THEN r.e ELSE IF Len(r.s) > 0 THEN "superfluous-sig" ELSE IF Len(r.p) > 0 THEN "superfluous-pre" ELSE "accept"
+CommitsV2 == Simple \o Threshes \o [i \in DOMAIN UCs |-> PUc(UCs[i])]
+MasksOf(c) == IF c.k = "thresh" /\ Len(c.of) > 0 THEN Masks ELSE <<"none">>
+\* what the family must show (checked below): every stage of both interpreters is the verdict of some case, and every odd key is
+\* dereferenced by some case (the interpreter reads its bytes)
+StagesV1 == {V1Stage(UCs[i], RevealsV1[r]) : i \in DOMAIN UCs, r \in DOMAIN RevealsV1}
+StagesV2 == {V2Stage(Mask(CommitsV2[i], m), Sats[s]) : i \in 1..(Len(Simple) + Len(Threshes)), m \in {"none", "first", "all"}, s \in DOMAIN Sats}
+                \cup {V2Stage(PUc(UCs[i]), Sats[s]) : i \in DOMAIN UCs, s \in DOMAIN Sats}
+ASSUME RevealStages == /\ StagesV1 = {"input-timelock", "nokey", "redundant", "sig-timelock", "covered", "invalid", "entropy", "missing", "accept"}
+                       /\ StagesV2 = {"height", "time", "signature", "preimage", "opaque", "uc-threshold", "entropy", "threshold", "threshold-exceeded", "uc-sub-policy",
+                                      "superfluous-sig", "superfluous-pre", "accept"}
+ASSUME OddKeysRead == \A n \in {0, 1, 31, 33, 64} : \E i \in DOMAIN UCs, r \in DOMAIN RevealsV1 :
+                          /\ UCs[i].keys = <<Key("ed25519", n)>>
+                          /\ V1Stage(UCs[i], RevealsV1[r]) \in {"invalid", "accept"}
+RevealCat == {E("reveal", <<1, f, "">>, "uc") : f \in Range(FormsV1)} \cup
+             {E("reveal", <<2, f, "">>, x) : f \in Range(FormsV2), x \in {"above", "after", "pk", "hash", "opaque", "thresh", "uc"}}
+
+Catalogue == SuppEraCat \cup WrapCat \cup ComplementCat \cup LifecycleCat \cup ConfuseCat \cup DecodedCat \cup CurSingles \cup CurPairs \cup ProofCat \cup CoveredCat \cup SigCat \cup ParentCat \cup SuppCat \cup PolicyCat \cup ResCat \cup EraCat \cup SizeCat \cup WinCat \cup ShapeCat \cup RevealCat
 Families == {e.fam : e \in Catalogue}
 
 VARIABLE step
@@ -198,6 +335,17 @@ Init == /\ step = 0
         /\ \A e \in Catalogue : PrintT("@@EXT " \o ToJson(e))
         /\ PrintT("@@EXTCOUNT " \o ToString(Cardinality(Catalogue)))
         /\ PrintT("@@FAMILIES " \o ToJson(Families))
+        \* commit, then reveal: the pre-images with the predicted stage of every reveal
+        /\ PrintT("@@RV1R " \o ToJson(RevealsV1))
+        /\ PrintT("@@RV2S " \o ToJson(Sats))
+        /\ PrintT("@@RVF " \o ToJson([v1 |-> FormsV1, v2 |-> FormsV2]))
+        /\ \A i \in DOMAIN UCs : PrintT("@@RV1 " \o ToJson([uc |-> UCs[i], st |-> [r \in DOMAIN RevealsV1 |-> V1Stage(UCs[i], RevealsV1[r])],
+                                                                   st2 |-> [r \in DOMAIN RevealsV1 |-> V1StageO(UCs[i], RevealsV1[r], TRUE)]]))
+        /\ \A i \in DOMAIN CommitsV2 : \A j \in DOMAIN MasksOf(CommitsV2[i]) :
+              LET c == CommitsV2[i]
+                  m == MasksOf(c)[j]
+              IN  PrintT("@@RV2 " \o ToJson([commit |-> c, mask |-> m, reveal |-> Mask(c, m), st |-> [s \in DOMAIN Sats |-> V2Stage(Mask(c, m), Sats[s])]]))
+        /\ PrintT("@@RVCOUNT " \o ToJson(<<Len(UCs), Len(RevealsV1), Len(CommitsV2), Len(Sats)>>))
 Next == step = 0 /\ step' = 1
 Spec == Init /\ [][Next]_step
 \* every entry is well formed: a known version, a member, an extreme; exactly the pair entries name a second member and extreme
